@@ -4103,7 +4103,8 @@ class LoopNode(ActionSinkNode, ActionSourceNode):
         # Reroute all transitions with a BreakAction in them that corresponds to our break action to go to us immediately as an optimization.
         for transition in sub_dfa.transitions_that_do(self.break_action):
             transition.to(self.end_state)
-            transition.actions.remove(self.break_action)
+            # what comes behind the break on this path (statements that follow the breaking clause / try body inside the loop) is not performed
+            del transition.actions[transition.actions.index(self.break_action):]
             transition.actions.extend(self.after_break_actions)
             should_try_to_append = True
 
